@@ -103,3 +103,55 @@ func genYieldAcross() Gen {
 		}
 	}
 }
+
+// genHostBody — coroutines whose body is a host (Go) function: its results are the results of the
+// resume, the coroutine is dead afterwards; coroutine.yield itself as the body suspends once and
+// then returns the values of the second resume; error as the body kills the coroutine.
+func genHostBody() Gen {
+	bodies := []struct {
+		name string
+		mk   func() Expr
+	}{
+		{"emit", func() Expr { return Name("emit") }}, {"hid", func() Expr { return Name("hid") }}, {"hn", func() Expr { return Name("hn") }},
+		{"yield", func() Expr { return Dot(Name("coroutine"), "yield") }}, {"error", func() Expr { return Name("error") }},
+		{"select", func() Expr { return Name("select") }}, {"type", func() Expr { return Name("type") }}, {"pcall", func() Expr { return Name("pcall") }},
+		{"status", func() Expr { return Dot(Name("coroutine"), "status") }}, {"running", func() Expr { return Dot(Name("coroutine"), "running") }},
+	}
+	argsets := []struct {
+		name string
+		mk   func() []Expr
+	}{
+		{"none", func() []Expr { return nil }},
+		{"two", func() []Expr { return []Expr{Num(2), Str("x")} }},
+		{"fn", func() []Expr {
+			return []Expr{Func(nil, true, Emit(Str("in-fn"), Vararg()), Return(Call(Dot(Name("coroutine"), "yield"), Str("from-fn")))), Str("a")}
+		}},
+	}
+	return func(yield func(*Prog)) {
+		for _, b := range bodies {
+			for _, as := range argsets {
+				for _, how := range []string{"create", "wrap"} {
+					b, as, how := b, as, how
+					yield(&Prog{Family: "F-hostbody", Shape: b.name + "/" + as.name + "/" + how, Mk: func() *Block {
+						var st []Stat
+						if how == "create" {
+							st = append(st, Local1("co", Call(Dot(Name("coroutine"), "create"), b.mk())))
+							for i := 1; i <= 3; i++ {
+								args := append([]Expr{Name("co")}, as.mk()...)
+								st = append(st, Emit(Str("resume"), Num(float64(i)), Call(Dot(Name("coroutine"), "resume"), args...)), Emit(Str("status"), Call(Dot(Name("coroutine"), "status"), Name("co"))))
+							}
+						} else {
+							st = append(st, Local1("w", Call(Dot(Name("coroutine"), "wrap"), b.mk())))
+							for i := 1; i <= 3; i++ {
+								args := append([]Expr{Name("w")}, as.mk()...)
+								st = append(st, Emit(Str("call"), Num(float64(i)), CallN("pcall", args...)))
+							}
+						}
+						st = append(st, Emit(Str("main"), Call(Dot(Name("coroutine"), "running"))))
+						return Blk(st...)
+					}})
+				}
+			}
+		}
+	}
+}
